@@ -78,7 +78,8 @@ macro "leaves" h:ident : tactic =>
   `(tactic| ((try dsimp only at $h:ident) <;> (repeat' split at $h:ident) <;> (try (simp at $h:ident; done)) <;>
       (simp only [Option.some.injEq, Prod.mk.injEq] at $h:ident) <;>
       (first | (obtain ⟨hres, -⟩ : _ ∧ _ := $h:ident; subst hres) | subst $h:ident) <;>
-      (try (simp [State.setTh]; done)) <;> (try (simp only [State.setTh]; split <;> (try split) <;> simp; done))))
+      (try (simp [State.setTh]; done)) <;> (try (simp [State.setTh, *]; done)) <;>
+      (try (simp only [State.setTh]; split <;> (try split) <;> simp [*]; done))))
 
 theorem finish_pc {c : Cfg} {S R : State} {t : Tid} {th : Th} (h : finish c S t th = some R) : (R.th t).pc ≠ .idle := by
   unfold finish at h
@@ -159,5 +160,51 @@ theorem stepThread_not_idle {c : Cfg} {s s' : State} {t : Tid} {tok : Tok} {spur
   · unfold stepSCas at h; leaves h
   · unfold stepSCb at h; leaves h
   · unfold stepSPub at h; leaves h
+
+
+theorem callOp_pc {c : Cfg} {s s' : State} {t : Tid} {op : Op} (h : callOp c s t op = some s') :
+    (s'.th t).pc ≠ .idle ∨ s'.th = s.th := by
+  unfold callOp at h; dsimp only at h
+  split at h
+  · simp at h
+  · cases op <;> dsimp only at h <;> (repeat' split at h) <;> (try (simp at h; done)) <;>
+      simp only [Option.some.injEq] at h <;> subst h <;> simp [State.setTh, startAlloc, startDealloc]
+
+theorem step_idleEmpty {c : Cfg} {s s' : State} (h : Step c s s') (hi : IdleEmpty s) : IdleEmpty s' := by
+  cases h with
+  | thread t tok spur l ht hs =>
+    intro u hu
+    by_cases e : u = t
+    · subst e; exact absurd hu (stepThread_not_idle hs)
+    · rw [(stepThread_delta hs).1 u e] at hu ⊢; exact hi u hu
+  | call t op ht hs =>
+    intro u hu
+    by_cases e : u = t
+    · subst e
+      rcases callOp_pc hs with h1 | h1
+      · exact absurd hu h1
+      · rw [h1] at hu ⊢; exact hi u hu
+    · rw [(callOp_delta hs).1 u e] at hu ⊢; exact hi u hu
+  | ret t ht hs =>
+    intro u hu
+    by_cases e : u = t
+    · subst e
+      unfold retOp at hs; dsimp only at hs
+      split at hs
+      · simp at hs
+      · simp only [Option.some.injEq] at hs; subst hs; simp [State.setTh, Th.toks]
+    · rw [(retOp_delta hs).1 u e] at hu ⊢; exact hi u hu
+
+theorem reach_idleEmpty {c : Cfg} {s : State} (h : Reach c s) : IdleEmpty s := by
+  refine Reachable.invariant IdleEmpty ?_ ?_ s h
+  · intro s hs; subst hs; intro t _; simp [State.init, Th.toks]
+  · intro s s' hi hst; exact step_idleEmpty hst hi
+
+/-- at quiescence no token is in flight -/
+theorem thToks_quiescent {c : Cfg} {s : State} (hi : IdleEmpty s) (hq : Quiescent c s) : thToks c s = [] := by
+  unfold thToks
+  apply List.flatMap_eq_nil_iff.mpr
+  intro t ht
+  exact hi t (hq t (List.mem_range.mp ht))
 
 end Babylon.Pages
